@@ -285,7 +285,7 @@ Guards2(e) ==
         {CG("storm_instances_closed_exactly_once", {"C12", "C10", "C09"}, \A i \in DOMAIN e.closes : e.closes[i] = 1),
          CG("storm_no_panic", {"C12", "C09"}, e.panics = 0),
          CG("storm_one_report", {"C12"}, e.errs = IF e.fail THEN 1 ELSE 0)}
-    ELSE IF e.ev \in {"hang", "fatal"} THEN {CG("no_hang_no_crash", {"C09", "C13"}, FALSE)}
+    ELSE IF e.ev \in {"hang", "fatal"} THEN {CG("no_hang_no_crash", AllProps, FALSE)}
     ELSE {}
 
 Apply2(e) ==
